@@ -246,8 +246,9 @@ def header_scan(ctx, rows):
 def run_cases(ctx, exe, pairs, tag, verbose=False):
     path = os.path.join(ctx.rundir, "cases-%s.txt" % tag)
     with open(path, "w") as f:
-        for rid, lv, v in pairs:
-            f.write("%d %s %d\n" % (rid, VLETTER[v], lv))
+        for pr in pairs:
+            rid, lv, v = pr[:3]
+            f.write("%d %s %d %s\n" % (rid, VLETTER[v], lv, pr[3] if len(pr) > 3 else "default"))
     from vlib.replay import ASAN_OPTS
     env = dict(os.environ, ASAN_OPTIONS=ASAN_OPTS, LC_ALL="C")
     if verbose:
@@ -266,7 +267,7 @@ def run_cases(ctx, exe, pairs, tag, verbose=False):
         if not line.startswith("E "):
             continue
         f = dict(x.split("=", 1) for x in line.split()[1:])
-        events.append({"op": "call", "row": int(f["row"]), "variant": {v: k for k, v in VLETTER.items()}[f["variant"]], "level": int(f["level"]), "ended": f["ended"], "rv": f.get("rv", "-"),
+        events.append({"op": "call", "row": int(f["row"]), "variant": {v: k for k, v in VLETTER.items()}[f["variant"]], "level": int(f["level"]), "env": f.get("env", "default"), "prefix": f.get("prefix", "na"), "ended": f["ended"], "rv": f.get("rv", "-"),
                        "changed": f.get("changed") == "1", "heapdelta": int(f.get("heapdelta", "0")), "diag": f.get("diag", "-"),
                        "status": int(f.get("status", "0")), "info": f.get("info", "-")})
     if len(events) != len(pairs):
@@ -289,7 +290,30 @@ def validate(ctx, events, tag="t"):
 
 
 def describe(e):
-    return "ended=%s rv=%s changed=%s heapdelta=%d diag=%s status=%d" % (e["ended"], e["rv"], e["changed"], e["heapdelta"], e["diag"], e["status"])
+    return "ended=%s rv=%s changed=%s heapdelta=%d diag=%s prefix=%s status=%d" % (e["ended"], e["rv"], e["changed"], e["heapdelta"], e["diag"],
+                                                                                  e.get("prefix", "na"), e["status"])
+
+
+NAME_LENGTHS = [0, 1, 255, 256, 1011, 1012, 1013, 1014, 1015, 1016, 1023, 1024, 1025, 1100, 2047, 2048, 2049, 4000]
+N_FMT_NAMES = 6          # harness/null_guard_rt.h NG_FMT_NAMES
+
+
+def global_settings():
+    """Adversarial values of the client-controlled globals behind every guard diagnostic."""
+    env = ["nameL%d" % n for n in NAME_LENGTHS] + ["nameF%d" % k for k in range(N_FMT_NAMES)]
+    env += ["verL%d" % n for n in (0, 1024, 4000)] + ["verF%d" % k for k in (0, 1)]
+    return env
+
+
+def env_class(env):
+    if env == "default":
+        return ""
+    what = "program-name" if env.startswith("name") else "program-version"
+    rest = env[4:] if env.startswith("name") else env[3:]
+    if rest[0] == "F":
+        return " %s-with-printf-conversions" % what
+    n = int(rest[1:])
+    return " %s-%s" % (what, "empty" if n == 0 else ("short" if n < 1000 else "long(>=1000 bytes)"))
 
 
 def expected(row, variant):
@@ -302,6 +326,8 @@ def failure_class(e, row):
         return "memory-fault/%s" % (m.group(1) if m else e["ended"])
     if e["ended"] == "exit":
         return "exit-at-level-0" if (e["level"] == 0 and e["diag"] == "fatal") else "exit-without-fatal-diagnostic/%s" % e["diag"]
+    if e.get("prefix") == "bad":
+        return "diagnostic-without-the-program-name-prefix"
     if e["rv"] != expected(row, e["variant"]):
         return "returns-%s-not-%s" % (re.sub(r"\d+", "N", e["rv"]), expected(row, e["variant"]))
     if e["changed"]:
@@ -335,24 +361,36 @@ def run(ctx):
     except Broken as b:
         raise Broken("the generated case file does not compile against the current headers (table out of date?): %s" % str(b)[-1500:])
     pairs = sorted(allowed)
-    events = run_cases(ctx, exe, pairs, "all")
+    # the same guard events under adversarial global settings (program name / version): the rows' "mid" variant at levels 0 and 1
+    # (warning path and fatal path); quick: one representative row per (source file, guard macro, failure class), thorough: every row
+    reps, seen_cls = [], set()
+    for r in claimed:
+        k = (r["file"], r["guard"], r["fail"])
+        if ctx.tier != "quick" or k not in seen_cls:
+            seen_cls.add(k)
+            reps.append(r["id"])
+    envs = global_settings()
+    env_pairs = [(rid, lv, "mid", env) for env in envs for rid in reps for lv in (0, 1) if (rid, lv, "mid") in allowed]
+    events = run_cases(ctx, exe, pairs + env_pairs, "all")
     rejected, tpath = validate(ctx, events)
     seen = 0
     for k in sorted(rejected):
         e = events[k]
         # determinism: a rejected case is run once more in isolation
-        e2 = run_cases(ctx, exe, [(e["row"], e["level"], e["variant"])], "again")[0]
+        e2 = run_cases(ctx, exe, [(e["row"], e["level"], e["variant"], e["env"])], "again")[0]
         if describe(e2) != describe(e):
             raise Broken("case %s at level %d does not repeat: %s / %s" % (byid[e["row"]]["key"], e["level"], describe(e), describe(e2)))
         row = byid[e["row"]]
         vtag = {"mid": "", "zero": " ints=0", "neg": " ints=-1", "allnull": " all-pointers-NULL"}[e["variant"]]
+        vtag += env_class(e["env"])
         key = "%s%s level%s %s" % (row["key"], vtag, "=0" if e["level"] == 0 else (">=1" if e["level"] == 1 else ">=2"), failure_class(e, row))
         what = ("%s (%s, owner %s) with NULL for parameter %d '%s'%s at runtime level %d: %s; contract: %s%s. %s" % (
             row["func"], row["file"], row["owner"], row["pos"], row["pname"], vtag, e["level"], describe(e), expected(row, e["variant"]),
             " or the fatal-error path" if e["level"] >= 1 else "", e["info"][:160]))
-        ctx.report(key, what, {"row": row["id"], "key": row["key"], "level": e["level"], "variant": e["variant"], "event": e, "table_row": row})
+        ctx.report(key, what, {"row": row["id"], "key": row["key"], "level": e["level"], "variant": e["variant"], "env": e["env"], "event": e, "table_row": row})
         seen += 1
-    nontrivial = {(e["row"], e["level"], e["variant"]) for e in events}
+    nontrivial = {(e["row"], e["level"], e["variant"], e["env"]) for e in events}
+    ctx.cov["global_settings"] = {"settings": len(envs), "rows_per_setting": len(reps), "events": len(env_pairs)}
     ctx.add("evaluations", len(events))
     ctx.cov["distinct_nontrivial"] = len(nontrivial)
     ctx.cov["events_validated_by_tlc"] = len(events)
@@ -386,7 +424,7 @@ def replay(ctx, path):
     gen_source([r for r in rows if r["claimed"]], src)
     libdir, cflags = build.build_lib(ctx.repo)
     exe = build.build_harness("null_guard", [src], libdir, cflags)
-    e = run_cases(ctx, exe, [(rp["row"], rp["level"], rp.get("variant", "mid"))], "replay", verbose=True)[0]
+    e = run_cases(ctx, exe, [(rp["row"], rp["level"], rp.get("variant", "mid"), rp.get("env", "default"))], "replay", verbose=True)[0]
     rejected, _ = validate(ctx, [e], tag="replay")
     print("%s variant %s level %d: %s  (%s)" % (row["key"], rp.get("variant", "mid"), rp["level"], describe(e), e["info"]))
     print("REPRODUCED (rejected by NullGuardTrace)" if rejected else "not reproduced: event accepted")
